@@ -159,6 +159,7 @@ class Result(object):
         self.truths = []
         self.super_calls = []  # (node, kwargs Kw snapshot, funckey)
         self.scaldivs = []  # scalar / scalar divisions: (line, dividend, divisor, node, funckey)
+        self.return_conds = {}  # id(return stmt) -> branch conditions under which it was reached
         self.maskstores = []  # (line, target Arr, value, node, funckey)
         self.layer_reads = []  # (node, sel, sorted?, funckey)
         self.layer_reduces = []  # (node, sel of the reduced value, method, funckey)
@@ -328,6 +329,7 @@ class Interp(object):
                     if (L + "#0") in v.M:
                         v = replace(v, M=v.M | {L + "#r"})
             fr.returns.append((s, v))
+            self.res.return_conds[id(s)] = tuple((t_, p_) for t_, p_, _f in self.cond_stack)
             env["__dead__"] = True
         elif isinstance(s, ast.Raise):
             if s.exc is not None:
@@ -990,7 +992,7 @@ class ArrayInterp(Interp):
             if len(vals) == 2 and isinstance(e.ops[0], (ast.Is, ast.IsNot)) and isinstance(vals[1], Other) and vals[1].tag == "none":
                 if isinstance(vals[0], Other) and vals[0].tag == "none":
                     return Other("bool", isinstance(e.ops[0], ast.Is))
-                if isinstance(vals[0], (Arr, Cmd, Kw)):
+                if isinstance(vals[0], (Arr, Cmd, Kw, Lst)):
                     return Other("bool", isinstance(e.ops[0], ast.IsNot))
             D = E
             Pg = E
@@ -1142,6 +1144,17 @@ class ArrayInterp(Interp):
             gen = lambda s: frozenset("ELEM" if x in t else x for x in s)  # noqa: E731
             tmpl = replace(v, alias=gen(v.alias), M=gen(v.M), D=gen(v.D), Pc=gen(v.Pc), Pg=gen(v.Pg), dtprov=gen(v.dtprov), maskof=gen(v.maskof), dataof=gen(v.dataof), maskalias=gen(v.maskalias))
             return Lst("masks" if (v.isbool and v.maskof) else "arrs", L=it.L, part=it.part, elem=tmpl)
+        if isinstance(it, Lst) and it.what == "range" and it.sliced is not None and isinstance(v, Arr) and not filtered:
+            # an index walk over a whole input list: [f(xs[i]) for i in range(k, len(xs))] is the list [f(x) for x in xs[k:]]
+            part = "rest" if it.sliced[0] == 1 else "all"
+            lists = {x.split("#")[0] for x in v.D | v.M | v.alias if "#" in x and not x.startswith("fresh@")}
+            if len(lists) == 1:
+                L = next(iter(lists))
+                t = toks(L, part)
+                if t <= (v.D | v.alias):
+                    gen = lambda s_: frozenset("ELEM" if x in t else x for x in s_)  # noqa: E731
+                    tmpl = replace(v, alias=gen(v.alias), M=gen(v.M), D=gen(v.D), Pc=gen(v.Pc), Pg=gen(v.Pg), dtprov=gen(v.dtprov), maskof=gen(v.maskof), dataof=gen(v.dataof), maskalias=gen(v.maskalias))
+                    return Lst("masks" if (v.isbool and v.maskof) else "arrs", L=L, part=part, elem=tmpl)
         if isinstance(v, Scal):
             D = v.D
             Pg = v.Pg
@@ -1272,6 +1285,8 @@ class ArrayInterp(Interp):
         self.unsupported("subscript on %r" % (base,), e, fr)
 
     def sub_list(self, base, idx, e, fr):
+        if isinstance(idx, Other) and idx.tag == "slice" and not (isinstance(idx.info, tuple) and len(idx.info) == 2):
+            idx = Other("slice", (Other("opaque"), Other("opaque")))
         is_slice = isinstance(idx, Other) and idx.tag == "slice"
         if base.items is not None:
             if isinstance(idx, Scal) and isinstance(idx.const, int) and -len(base.items) <= idx.const < len(base.items):
@@ -1323,6 +1338,8 @@ class ArrayInterp(Interp):
         self.unsupported("index into %r" % (base,), e, fr)
 
     def sub_arr(self, base, idx, e, fr):
+        if isinstance(idx, Other) and idx.tag == "slice" and not (isinstance(idx.info, tuple) and len(idx.info) == 2):
+            idx = Other("slice", (Other("opaque"), Other("opaque")))  # a slice whose bounds differ between the paths that reach here
         is_slice = isinstance(idx, Other) and idx.tag == "slice"
         if base.shape in ("stacked", "rankdep"):
             if base.shape == "rankdep":
@@ -2110,6 +2127,9 @@ class ArrayInterp(Interp):
                 for x in a0.items[1:]:
                     r = self.binop_arr(r, x, ast.Add(), e, fr)
                 return replace(r, shape=shape, alias=S(), kind="plain" if ".ma." not in qn else r.kind)
+            if (isinstance(a0, Lst) and a0.what in ("opaque", "mixed") and a0.items is None) or (isinstance(a0, Other) and a0.tag in ("join", "opaque")):
+                # the list was built in a way the analyser does not follow (appends mixed with other work): no verdict
+                self.unsupported("stacking a list whose construction is not followed", e, fr)
             return Arr(kind="plain", alias=S(), shape="unknown", dt=IF_)
         if qn in ("numpy.broadcast_to",):
             shp = A[1] if len(A) > 1 else K.get("shape")
